@@ -217,7 +217,7 @@ pub fn c06(tier: Tier) -> i32 {
         }
         Tier::Thorough => {
             for m in M7 {
-                runs.push((c06_cfg(m, 2, 7, false), caps(150)));
+                runs.push((c06_cfg(m, 2, 8, false), caps(150)));
             }
         }
     }
@@ -353,12 +353,12 @@ pub fn c07(tier: Tier) -> i32 {
             for a in lattice {
                 for b in lattice {
                     if a != b {
-                        runs.push((c07_cfg(a, b, None, 6), caps(30)));
+                        runs.push((c07_cfg(a, b, None, 7), caps(30)));
                     }
                 }
             }
             for (a, b, c) in [(0u16, 1u16, 2u16), (255, 256, 257), (65533, 65534, 65535)] {
-                runs.push((c07_cfg(a, b, Some(c), 5), caps(120)));
+                runs.push((c07_cfg(a, b, Some(c), 6), caps(120)));
             }
         }
     }
